@@ -722,8 +722,108 @@ C12_WRITE_IF_NEEDED = (G, "gosym_part", dict(name="c12_write_if_needed", entry="
                                desc="iocommon.WriteFileIfNeeded on symbolic old/new contents (SMT strings): a write happens iff contents differ or the file is missing",
                                assumptions=["os.ReadFile/WriteFile modelled by the virtual file system in env_intrinsics.go"]))
 
+
+# ---- helper4B: emitted-C++ read-back parts (record converters, constructors, fallback batch read, names, switch expressions) ----
+C02_CPP_RECORD_PART = (G, "gosym_part", dict(name="c02_cpp_record_converters", entry="internal/zzverif.C02CppRecord", args_quick=(3, 4, 2, 1), args_thorough=(3, 6, 2, 1),
+                               required_sites=("only-known-statement-forms", "record-json-is-an-object", "object-has-no-other-keys", "field-present-under-its-model-name",
+                                               "null-nullable-field-is-skipped", "from-json-accepts-what-to-json-wrote", "round-trip"),
+                               assumptions=["nlohmann::ordered_json meaning transcribed in harness/go/internal/zzverif/zz_c02_cpprecord.go (validated against nlohmann/json 3.11 with g++): "
+                                            "push_back({k, v}) inserts into an object but turns a null value into an ARRAY, operator[] / emplace turn null into an object, find on a non-object is end(), "
+                                            "get_to assigns; ShouldSerializeFieldValue = has_value() / index() != 0 / true by member type (include/detail/ndjson/serializers.h)",
+                                            "the struct is read back from the emitted types.h text (member types and names); member contents are abstract 64-bit values"],
+                               desc="cpp/ndjson.writeRecordConverters on a record accepted by the real dsl.Validate with 1-3 fields of symbolic kinds (int, string?, [null,int,string], int*; thorough: "
+                                    "+ optional record, non-null union), names incl. camelCase / reserved words, and a symbolic value (null state and content of every member): the emitted to_json "
+                                    "evaluated on a null json yields a JSON OBJECT (never null / array) whose keys are exactly the model names of the fields that are not (nullable and null); the "
+                                    "emitted from_json of that object gives the value back, into a value-initialised destination AND into a reused destination holding an arbitrary previous value "
+                                    "(what CopyTo / batch reads do)"))
+C05_CPP_CTORS_PART = (G, "gosym_part", dict(name="c05_cpp_binary_constructors", entry="internal/zzverif.C05CppConstructors", args_quick=(2, 4, 3), args_thorough=(3, 6, 6),
+                               extra_thorough=("-max-paths", "400000"),
+                               required_sites=("generated-class-and-constructors-understood", "writer-opens-the-stream-it-was-given", "writer-stores-the-version-it-was-asked-for",
+                                               "header-schema-is-the-schema-of-the-version-the-writer-converts-to", "reader-opens-the-stream-it-was-given",
+                                               "reader-version-is-a-version-with-the-schema-read", "stream-and-file-name-constructors-generated"),
+                               assumptions=["binary/protocols.h is read back line-wise (class heads with base classes, constructors with parameter lists, default arguments and mem-initialiser lists); the "
+                                            "mem-initialisers are evaluated on the translation unit of protocols.h/.cc as read by zz_c04_cppschemas.go (SchemaFromVersion, VersionFromSchema, schema_ evaluated)",
+                                            "yardl::binary::BinaryWriter(dest, schema) writes `schema` into the stream header; yardl::binary::BinaryReader(src) leaves the header's schema in schema_read_ "
+                                            "(include/detail/binary/reader_writer.h; the kernels are C15's llsym part)"],
+                               desc="same model family as c04_cpp_schema_tables (m previous versions, symbolic labels and change kinds, real Validate + ValidateEvolution): for EVERY constructor of the "
+                                    "generated Binary<P>Writer (std::ostream& and file-name overloads), every enumerator of Version as argument and the default argument: version_ is the version asked "
+                                    "for and the schema handed to the base class is that version's own schema; for every constructor of Binary<P>Reader and every version's schema in the header: "
+                                    "version_ is a version with exactly that schema; both overloads exist and open the stream / file they were given"))
+C17_CPP_FALLBACK_PART = (G, "gosym_part", dict(name="c17_cpp_fallback_batch_read", entry="internal/zzverif.C17CppFallbackBatch", args_quick=(3, 4, 2), args_thorough=(4, 6, 3),
+                               required_sites=("only-known-statement-forms", "vector-holds-exactly-the-items-read", "items-are-the-fresh-ones-in-stream-order", "returns-true-iff-an-item-was-delivered",
+                                               "fallback-returns-true-iff-filled-to-capacity", "no-undefined-vector-access-no-reallocation-no-read-past-the-end", "capacity-unchanged"),
+                               assumptions=["std::vector meaning transcribed in zz_c17_fallback.go: resize keeps the first min(size, n) elements and value-initialises the rest, pop_back, clear, v[i] needs "
+                                            "i < size, capacity grows only when exceeded; `unlikely(state_ != N)` is false (the reader is at this step: order checking is C07's)",
+                                            "the single-item Read<Step>Impl(T&) delivers the next item while any is left and reports the end exactly once"],
+                               desc="cpp/protocols.writeDefinitions: the public Read<Step>(std::vector<T>&) and the fallback Read<Step>Impl(std::vector<T>&) inherited by the NDJSON / HDF5 readers, "
+                                    "interpreted on an abstract vector with SYMBOLIC previous size p <= capacity c (1..3/4) and k (0..4/6) items left in the stream: afterwards the vector holds exactly "
+                                    "the min(c, k) freshly read items in order (no stale item of an earlier batch, no filler), the call returns true iff an item was delivered, the fallback returns "
+                                    "true iff it filled the vector to its capacity, no out-of-range access, no reallocation, no read after the end of the stream"))
+C08_RESERVED_PART = (G, "gosym_part", dict(name="c08_reserved_names", entry="internal/zzverif.C08ReservedNames", args_quick=(7, 2), args_thorough=(7, 5),
+                               required_sites=("identifier-is-not-a-reserved-word", "identifier-is-well-formed", "emitted-member-is-not-a-reserved-word", "emitted-enumerator-is-not-a-reserved-word",
+                                               "emitted-type-name-is-not-a-reserved-word"),
+                               assumptions=["reserved words transcribed from ISO C++20 [lex.key] tables 5 and 6 (keywords, alternative tokens) and Python 3.12 keyword.kwlist; library macro / typedef "
+                                            "names (int8_t, INT8_MAX, ...) are not asserted",
+                                            "regexp2 (ToSnakeCase) runs natively on concrete strings: the model name is a symbolic CHOICE over the derived vocabulary, not a symbolic string"],
+                               desc="every naming function of internal/cpp/common and internal/python/common (field, computed field, enum value, type, version label, namespace, protocol method names) on "
+                                    "a model name that is symbolic over a vocabulary derived from the reserved-word list itself: for each reserved word its camelCase / PascalCase / verbatim / glued "
+                                    "spelling (not_eq -> notEq, NotEq, not_eq, noteq; char8_t -> char8T ...) alone and followed by Field (thorough: Value, Type, Version): the identifier is well formed "
+                                    "and never a reserved word; in addition a record / enum / protocol carrying the name goes through the real dsl.Validate and the struct members and enumerators read "
+                                    "back from the emitted types.h are not reserved words"))
+
+
+def c08_injective_key(aid, events, outs):
+    if aid == "distinct-names-give-distinct-identifiers":
+        return "c08:identifier-mapping-not-injective"
+    return "c08_identifier_injectivity:" + aid
+
+
+C08_INJECTIVE_PART = (G, "gosym_part", dict(name="c08_identifier_injectivity", entry="internal/zzverif.C08IdentifierInjectivity", args_quick=(3, 2), args_thorough=(3, 5),
+                               required_sites=("distinct-names-give-distinct-identifiers",), key_fn=c08_injective_key,
+                               assumptions=["vocabulary as in c08_reserved_names; pairs of different spellings derived from the same reserved word"],
+                               desc="two distinct model names that the same naming function accepts (fields / enum symbols / steps of one definition) must be given distinct identifiers. KNOWN to fail "
+                                    "on the unchanged tree (key c08:identifier-mapping-not-injective): C++ fields `alignas` and `alignasField` (also `int` / `intField`) both become `*_field`; "
+                                    "`int8T` / `int8t` both become `int8t` in C++ and Python; validateRecordFieldNames compares model spellings only"))
+C08_SWITCH_PART = (G, "gosym_part", dict(name="c08_switch_expressions", entry="internal/zzverif.C08Switch", args_quick=(2, 4, 1, 15), args_thorough=(3, 4, 2, 15),
+                               extra_thorough=("-max-paths", "400000"),
+                               required_sites=("well-formed-switch-validates", "cpp-text-is-one-complete-expression", "cpp-only-known-forms", "cpp-every-identifier-is-declared-in-scope",
+                                               "cpp-every-identifier-is-captured-by-the-enclosing-lambdas", "cpp-switch-denotes-the-source-switch",
+                                               "python-every-identifier-is-assigned-before-use", "python-switch-denotes-the-source-switch",
+                                               "matlab-every-identifier-is-assigned-before-use", "matlab-switch-denotes-the-source-switch"),
+                               assumptions=["emitted C++ read back as immediately-invoked lambdas / std::visit with if, if constexpr, reference declarations and return; Python / MATLAB as assignments, if "
+                                            "blocks and return (zz_c08_switch.go); case expressions are read by the expression readers of zz_c08_cppexpr.go",
+                                            "documented type mapping int -> int32_t, string -> std::string, null -> std::monostate; Python union case class = PascalCased tag; MATLAB case index = position "
+                                            "among the non-null cases",
+                                            "the generated switches are the well-formed ones (every case reachable, all alternatives covered); dsl.Validate must accept them"],
+                               desc="computed field = !switch over an optional / union / nullable union / single-type field, 1-2 (3) cases with symbolic patterns {type, declaration, discard, null}, one case "
+                                    "expression using the declared variable or being a NESTED switch whose own case expressions use the outer variable (and their own); real dsl.Validate (incl. the "
+                                    "rewrite that drops unused declarations), then the real C++ / Python / MATLAB emitters; for every combination of active alternatives the emitted text, evaluated "
+                                    "with the target language's scoping (C++ lambda captures included), declares every identifier it uses and returns what the source switch denotes (the first "
+                                    "matching case's OWN expression), computed from the harness's description of the switch"))
+C08_NO_SHADOW_PART = (G, "gosym_part", dict(name="c08_cpp_no_shadowing", entry="internal/zzverif.C08CppNoShadowing", args_quick=(0, 6, 2, 5), args_thorough=(0, 6, 3, 5),
+                               required_sites=("only-known-statement-forms", "declaration-does-not-hide-a-name-in-scope", "equality-operator-understood",
+                                               "equality-compares-each-member-of-this-with-the-same-member-of-the-other-object"),
+                               assumptions=["function bodies of binary/protocols.cc read back by zz_cppstmt.go; declarations recognised: `T name [= init]`, for-init, range-for, if-init",
+                                            "single-level vectors only: the inner loop of a vector-of-vector conversion re-declaring i / item is the known finding c05:nested-vector-conversion-shadows-loop-variable"],
+                               desc="record with 2 (3) fields whose names are symbolic over {value, stream, other, i, item, plain} and whose change from the previous version is symbolic (unchanged, removed, "
+                                    "int -> long, int? -> long?, int* -> long*), real Validate + ValidateEvolution: in every emitted serializer, compatibility serializer and reader / writer method no "
+                                    "declaration has the name of a parameter or of a variable declared in an enclosing or the same scope; the struct's operator==, read back with C++ name lookup (a "
+                                    "parameter hides a member), compares each member of *this with the same member of the other object"))
+
+C09_SCOPES_PART = (G, "gosym_part", dict(name="c09_scopes", entry="internal/zzverif.C09Scopes", key_fn=c09_key,
+                               required_sites=("violation-rejected", "error-names-offending-file", "own-type-parameter-accepted", "no-panic"), assumptions=C09_GENERIC_ASSUME,
+                               desc="scope of type-parameter names: a reference spelled like a type parameter of ANOTHER definition (symbolic name: second parameter of an earlier "
+                                    "generic record / parameter of an earlier generic alias of the same namespace, of the base model's Pair, of a generic of an imported namespace, of a "
+                                    "generic only the imported namespace has, of a LATER definition, or nobody's) at 13 positions (the 10 of c09_type_rules, argument of a nested "
+                                    "imported generic, map key, computed-field conversion target) x host definition {not generic, generic with other parameters, declares the name "
+                                    "itself} x {main, imported namespace}: rejected naming the file, unless the host declares the name (then accepted)"))
+
 PARTS = {
     "C08": [
+        C08_RESERVED_PART,   # identifiers derived from model names are never C++ / Python reserved words
+        C08_INJECTIVE_PART,   # ... and distinct names stay distinct (known finding c08:identifier-mapping-not-injective)
+        C08_SWITCH_PART,   # emitted !switch expressions declare what they use (C++ captures included) and denote the source switch
+        C08_NO_SHADOW_PART,   # no emitted declaration hides a parameter / enclosing local; operator== is not confused by a field named like its parameter
         C04_CPP_LABELS_PART,   # version labels become distinct, keyword-free C++ enumerators
         C08_EXPR_PART,   # emitted C++ / Python / MATLAB computed-field expressions are complete, side-effect-free expressions of their language
         C13_IMPORTED_GENERICS,   # definitions come out dependencies-first (also through type arguments of imported generics): generated Python modules import, C++ declares before use
@@ -765,6 +865,8 @@ PARTS = {
                                desc="reader of a 128-step all-stream protocol, last steps and Close")),
     ],
     "C05": [
+        C05_CPP_CTORS_PART,   # every generated constructor pairs version_ with that version's own header schema
+        C08_NO_SHADOW_PART,   # temporaries of compatibility serializers never hide the serializer's parameters or each other
         (G, "gosym_part", dict(name="c05_int_conversion_read", entry="internal/zzverif.C05IntConversion", args_quick=(0,), args_thorough=(0,), key_fn=c05_key,
                                required_sites=("no-silent-wrap", "no-spurious-overflow-error", "guard-throws", "assigns-static-cast-to-target"), assumptions=C05_ASSUME,
                                desc="cpp/binary.writeTypeConversion for TypeChangeNumberToNumber on a symbolic (old, new) pair of the 9 integer primitives, reading an old stream: "
@@ -804,6 +906,7 @@ PARTS = {
                                     "compareTypes(old, new) in kind, nested type pairs and case indices wherever both directions are accepted")),
     ],
     "C19": [
+        C08_SWITCH_PART,   # a !switch means the same in C++, Python and MATLAB: each case returns its own expression
         (PYG, "c19_py_computed", dict()),
         C08_EXPR_PART,   # the C++, Python and MATLAB texts of a computed field denote the tree of the source expression
         (G, "gosym_part", dict(name="c19_static_types", entry="internal/zzverif.C19Types",
@@ -880,13 +983,7 @@ PARTS = {
                                desc="a union that becomes ill-formed only after instantiation is rejected for EVERY instantiation of the generic, whatever other instantiations of the same generic "
                                     "precede or follow it: 2-3 instantiations of one union-bearing generic on symbolic arguments in symbolic order; the package is rejected, naming main/model.yml, "
                                     "iff some instantiation is ill-formed, and accepted otherwise")),
-        (G, "gosym_part", dict(name="c09_scopes", entry="internal/zzverif.C09Scopes", key_fn=c09_key,
-                               required_sites=("violation-rejected", "error-names-offending-file", "own-type-parameter-accepted", "no-panic"), assumptions=C09_GENERIC_ASSUME,
-                               desc="scope of type-parameter names: a reference spelled like a type parameter of ANOTHER definition (symbolic name: second parameter of an earlier "
-                                    "generic record / parameter of an earlier generic alias of the same namespace, of the base model's Pair, of a generic of an imported namespace, of a "
-                                    "generic only the imported namespace has, of a LATER definition, or nobody's) at 13 positions (the 10 of c09_type_rules, argument of a nested "
-                                    "imported generic, map key, computed-field conversion target) x host definition {not generic, generic with other parameters, declares the name "
-                                    "itself} x {main, imported namespace}: rejected naming the file, unless the host declares the name (then accepted)")),
+        C09_SCOPES_PART,
         (G, "gosym_part", dict(name="c09_subscripts", entry="internal/zzverif.C09Subscripts", args_quick=(0,), args_thorough=(1,), key_fn=c09_key,
                                extra_thorough=("-max-paths", "100000"),
                                required_sites=("violation-rejected", "error-names-offending-file", "well-typed-subscript-accepted", "no-panic"),
@@ -903,6 +1000,7 @@ PARTS = {
         C11_RULES_PART,       # 23 rules x {package, import, previous version, previous version's import} through the real generateImpl / validatePackage (rules must not be top-level only)
     ],
     "C13": [
+        C09_SCOPES_PART,   # what a type reference resolves to does not depend on which generic definitions were visited before it (definition order, file order, imports)
         (G, "gosym_part", dict(name="c13_order_and_files", entry="internal/zzverif.C13Order", args_quick=(1,), args_thorough=(0,),
                                required_sites=("reordered-accepted", "same-schema", "dependencies-first", "same-field-plan", "same-python-serializer"),
                                assumptions=["model family: harness c13Defs (record, generic record, aliases instantiating it with vector/optional arguments, enum with symbolic base, "
@@ -938,6 +1036,7 @@ PARTS = {
         (CC, "c17_cc_reuse", dict()),   # the value read is the value written, whatever the destination object held before (vectors, maps, blocks)
     ],
     "C03": [
+        C02_CPP_RECORD_PART,   # a record is a JSON object in every backend (Python refuses null where C++ would write it)
         (PY, "c03_py_capacity", dict()),
         ("py_numpy", "c03_py_array_layouts", dict()),   # the bytes of an array do not depend on its memory layout (C / Fortran order, transposed or strided views)
         (PY, "c02_py_converters", dict()),   # NDJSON converters + NDJsonProtocolReader line look-ahead (binary <-> NDJSON copies)
@@ -955,6 +1054,8 @@ PARTS = {
         (PY, "c16_py_truncation", dict()),
     ],
     "C17": [
+        C17_CPP_FALLBACK_PART,   # generic batch read of the C++ abstract readers: exactly the fresh items, whatever the vector held
+        C02_CPP_RECORD_PART,   # NDJSON record from_json assigns every member of a reused destination
         (CC, "c17_cc_blocks", dict()),
         (CC, "c17_cc_reuse", dict()),
         (PY, "c17_py_batching", dict()),
@@ -966,6 +1067,7 @@ PARTS = {
         C05_BULK_BYPASS,   # a batch read (ReadBlocksIntoVector, bulk path) and single reads (ReadBlock, element function) of the same previous-version stream must deliver the same items
     ],
     "C15": [
+        C05_CPP_CTORS_PART,   # readers derive version_ from the schema found in the header
         C04_EMBED_PART,
         C04_DETERMINES_PART,   # a reader can only refuse a foreign stream if wire-different models have different schema texts
         C04_TYPEARGS_PART,     # ... also when the difference sits in a definition reached only through a type argument
@@ -976,6 +1078,7 @@ PARTS = {
         (PYG, "c15_py_schema_edits", dict()),   # generated NDJson / Binary readers refuse their own schema after any single edit (array prefix / extension, swapped elements, renamed member, changed scalar)
     ],
     "C04": [
+        C05_CPP_CTORS_PART,   # the schema written into the header is the one of the version the writer converts to
         C12_WRITE_IF_NEEDED,   # regenerating into the same directory after a wire-affecting edit replaces the embedded schema (a file is rewritten whenever its content differs at all)
         C04_EMBED_PART,
         C04_PURE_PART,   # no backend changes the shared model: every backend embeds the same text in whatever order they run
@@ -1021,6 +1124,7 @@ PARTS = {
         C18_DIRS_PART,        # a namespace claimed by two different (similarly named) directories never loads, so nothing is generated from it
     ],
     "C02": [
+        C02_CPP_RECORD_PART,   # emitted C++ record converters: JSON object with exactly the documented keys, round trip
         (PY, "c02_py_converters", dict()),
         ("py_ndjson", "c02_py_flags", dict()),        # FlagsConverter on a flags definition with symbolic member values (multi-bit / overlapping / zero members): names written denote exactly the value
         ("py_ndjson", "c02_py_array_json", dict()),   # NDJSON array converters on arrays of every memory layout: data = row-major logical order, from_json(to_json(a)) = a
